@@ -1413,6 +1413,22 @@ func runC19(ctx *Ctx) *Result {
 	}
 	close(work)
 	wg.Wait()
+	// A disagreement or sandbox error seen while 14 sandboxes (and other jobs of the machine) ran at
+	// once may be an environment failure (a hook that could not start, a time-out).  Such a case is
+	// inconclusive: it is run again alone, and only what shows again is reported.
+	for i, cr := range results {
+		if cr == nil {
+			continue
+		}
+		if st, _ := mismatch(cr); st != "" {
+			again := runScenario(t, fmt.Sprintf("again%d", i), scs[i], drv)
+			if st2, _ := mismatch(again); st2 == "" {
+				again.counts["inconclusive: first run disagreed, the serial re-run did not"]++
+				res.Notes = append(res.Notes, "not reproduced when run alone (taken as environment failure): "+scs[i].line()+" — "+st)
+			}
+			results[i] = again
+		}
+	}
 	for _, cr := range results {
 		if cr != nil {
 			record(res, cr)
@@ -1428,6 +1444,32 @@ func runC19(ctx *Ctx) *Result {
 
 // modelStale: the driver runs a program that is not the translation of the script under test
 var modelStale bool
+
+// mismatch: does the run of the real script differ from the model (stream name, first difference)?
+func mismatch(cr *caseResult) (string, string) {
+	if cr.err != "" {
+		return "sandbox", cr.err
+	}
+	if modelStale {
+		return "", ""
+	}
+	implS := strings.Join(cr.impl, ";")
+	if cr.sc.Kind == "seq" && implS != cr.model {
+		return "c19 exit status, line trace and tree per event", firstDiff(cr.impl, strings.Split(cr.model, ";"))
+	}
+	if cr.sc.Kind == "par" && len(cr.impl) > 0 {
+		// model = the events followed by ONE undisturbed run: the tree after the parallel start
+		// must be the tree after that run
+		ms := strings.Split(cr.model, ";")
+		if i := strings.Index(ms[len(ms)-1], "cur="); i >= 0 {
+			ms[len(ms)-1] = ms[len(ms)-1][i:]
+		}
+		if implS != strings.Join(ms, ";") {
+			return "c19 tree after parallel invocations", firstDiff(cr.impl, ms)
+		}
+	}
+	return "", ""
+}
 
 func record(res *Result, cr *caseResult) {
 	sc := cr.sc
@@ -1453,19 +1495,8 @@ func record(res *Result, cr *caseResult) {
 	model := cr.model
 	if modelStale {
 		res.Count("model-not-compared")
-	} else if sc.Kind == "seq" && implS != model {
-		res.Disagree("c19 exit status, line trace and tree per event", sc, firstDiff(cr.impl, strings.Split(model, ";")), model)
-	}
-	if !modelStale && sc.Kind == "par" && len(cr.impl) > 0 {
-		// model = the events followed by ONE undisturbed run: the tree after the parallel start
-		// must be the tree after that run
-		ms := strings.Split(model, ";")
-		if i := strings.Index(ms[len(ms)-1], "cur="); i >= 0 {
-			ms[len(ms)-1] = ms[len(ms)-1][i:]
-		}
-		if implS != strings.Join(ms, ";") {
-			res.Disagree("c19 tree after parallel invocations", sc, firstDiff(cr.impl, ms), model)
-		}
+	} else if st, diff := mismatch(cr); st != "" {
+		res.Disagree(st, sc, diff, model)
 	}
 	for _, f := range cr.findings {
 		res.Count("oracle:" + f.pred)
